@@ -583,6 +583,11 @@ pub fn run(rng: &mut Rng, tier: &str, out: &str) -> Report {
             ro_on = true;
         }
         let ro_at = rng.below(sched as u64 + 1) as usize;
+        // a third of the read-only sessions are "blips": the state turns read-only, receives whatever is in flight
+        // and turns read-write again BEFORE it generates anything; nothing else is read-only in such a session, and
+        // at quiescence the peer must hold every change it skipped during the blip
+        let blip_mode = kind == "read-only" && !ro_on && rng.chance(1, 3);
+        let blip_at = rng.below(sched as u64 + 1) as usize;
         let mut crashes = 0u64;
 
         // half of the multi-peer sessions first sync to quiescence, so that the links have shared heads worth
@@ -596,7 +601,17 @@ pub fn run(rng: &mut Rng, tier: &str, out: &str) -> Report {
             if s.failed {
                 break;
             }
-            if kind == "read-only" && !ro_on && t == ro_at {
+            if blip_mode && t == blip_at {
+                // make it likely that a message carrying changes is in flight towards the peer
+                let other = if ro_side == 0 { s.links[0].b } else { s.links[0].a };
+                s.local_edit(rng, &cfg, other, None);
+                s.generate(&mut rep, 0, 1 - ro_side);
+                s.set_ro(0, ro_side, true);
+                while s.deliver(&mut rep, 0, 1 - ro_side) {}
+                s.set_ro(0, ro_side, false);
+                rep.count("read_only_blips");
+            }
+            if kind == "read-only" && !blip_mode && !ro_on && t == ro_at {
                 s.set_ro(0, ro_side, true);
                 ro_on = true;
             }
@@ -660,7 +675,7 @@ pub fn run(rng: &mut Rng, tier: &str, out: &str) -> Report {
                 }
             }
         }
-        if kind == "read-only" && !ro_on && !s.failed {
+        if kind == "read-only" && !blip_mode && !ro_on && !s.failed {
             s.set_ro(0, ro_side, true);
         }
         // ---------- final topology (multi-peer): reconnect most dropped links ----------
@@ -720,7 +735,17 @@ pub fn run(rng: &mut Rng, tier: &str, out: &str) -> Report {
             let ncomp = comp.iter().collect::<BTreeSet<_>>().len();
             rep.add("components", ncomp as u64);
         }
-        if !s.failed && kind == "read-only" {
+        if !s.failed && blip_mode {
+            let h0 = sorted(s.docs[0].get_heads());
+            let h1 = sorted(s.docs[1].get_heads());
+            if h0 != h1 || render_plain(s.docs[0].document(), &cands) != render_plain(s.docs[1].document(), &cands) {
+                rep.fail(&["C22"], "sync|no-catch-up|after-blip",
+                    "the state was read-only only while it received (no message generated in between); back in read-write the session went quiet but the peer still lacks changes it skipped",
+                    json!({"kind": kind, "log": s.log}));
+                s.failed = true;
+            }
+        }
+        if !s.failed && kind == "read-only" && !blip_mode {
             let (r, w) = if ro_side == 0 { (s.links[0].a, s.links[0].b) } else { (s.links[0].b, s.links[0].a) };
             // the writer has everything the read-only peer has
             let rset = all_hashes(&mut s.docs[r]);
